@@ -233,12 +233,12 @@ def frame0 (root : Nat) (s : Store) : WalkFrame :=
   { root := root, pqs := pqsOf s root, qps := qpsOf s root, pos := 0 }
 
 theorem walkFrame_eq (root : Nat) (s : Store) :
-    walkFrame root s = if root + 1 ≥ W32 then throw .overflow else pure (frame0 root s) := rfl
+    walkFrame root s = if root + 1 ≥ W32 then throw .panic else pure (frame0 root s) := rfl
 
 /-- a call of the recursive walk = the actions of its frame -/
 theorem walkDoubles_acts (f root : Nat) (s : Store) :
     walkDoubles (f + 1) root s =
-      if root + 1 ≥ W32 then throw .overflow
+      if root + 1 ≥ W32 then throw .panic
       else runActs (walkDoubles f) root (actsOf (frame0 root s)) s := by
   rw [walkDoubles_unfold]
   split
